@@ -27,6 +27,13 @@ RULE = ("A: random containers of the four types (3-7 nodes, 1-9 records of size 
         "metadata. Metadata over 4 attributes, values drawn per case from a handful of the 44 pool values of every JSON type "
         "(strings, ints, floats, bools, None, lists, dicts, nested, falsy 0 / 0.0 / False / '' / [] / {}, 2^70, 2^53+1 vs "
         "2.0^53, look-alikes '1' / 'None' / '25') with their equal values of other types (1 / 1.0 / True), missing attributes; "
+        "HOW the metadata arrive (round f, own PRNG per case): an item whose metadata are {} got {} explicitly, None, or NO "
+        "metadata argument at all (nodes also: known only through their hyperedges); hyperedges come one by one (add_edge, "
+        "keyword or positional), in one add_edges batch or through the constructor (edge_metadata list with None entries, "
+        "None, or left out when no item of the batch has metadata), nodes through add_node / add_nodes / the constructor's "
+        "node_metadata, before or (30%) after the hyperedges; 10% one set_edge_metadata(key, {}) afterwards; the content "
+        "before and after the call is read from the FULL listings get_nodes() / get_edges() and the per-item getters, "
+        "never from the metadata=True listings the filter walks through; "
         "in 30% a history with removals before the filter (records through an extra node inserted among the real ones and "
         "removed by remove_edge / remove_node with either keep_edges); node and edge criteria None / {} / 1-2 attributes with "
         "0-3 allowed values (65% values somebody has, 35% replaced by an equal value of another type, None, values nobody has) "
@@ -80,6 +87,9 @@ ASSUMPTIONS = ["hyperedges are duplicate-free node tuples; directed ones have di
                "exactly what the correspondence on freshly constructed objects checks",
                "allowed values in a set / frozenset / dict are only generated where every metadata value of the attribute is "
                "hashable (an unhashable value `in` a set is a TypeError of Python, not of the filter)",
+               "an item that was added without metadata, with None or with {} has the metadata {} (what every container's "
+               "add_node / add_edge documents and does); where a per-item metadata getter raises on an item that the full "
+               "listing shows, the metadata the case gave that item stand in for the oracle (counted, 0 on the unchanged tree)",
                "the caller's criteria objects are unchanged by the call (reported as a violation otherwise: the same criteria "
                "would select differently on their next use)",
                "get_svh: positive integer weights (quantifier; Python or numpy integers); alpha in (0, 1]",
@@ -473,10 +483,68 @@ def gen_filter_case(rng):
         return c
 
     crits(case)
+    case["present"] = gen_present(case)
     if rng.random() < 0.3:
         # a second call on the same (already filtered) object
         case["then"] = [crits({"mode": rng.choice(["keep", "remove"]), "keep_edges": rng.random() < 0.5})]
     return case
+
+
+HOWS = ("given", "omit", "none")
+
+
+def gen_present(case):
+    """HOW the items' metadata reach the container and through WHICH entry point. An item whose metadata are {} may
+    have got {} explicitly ("given"), None ("none") or never any metadata at all ("omit": the argument is left out);
+    hyperedges arrive one by one (add_edge), in one add_edges batch or through the constructor, nodes through add_node,
+    add_nodes or the constructor's node_metadata, before or after the hyperedges. Drawn from an own PRNG seeded by
+    the case, so that the stream of cases is the one of the earlier rounds."""
+    import random
+    r = random.Random(case["fresh"] * 7 + 3)
+
+    def how(md):
+        if md:
+            return "given"
+        return r.choice(["given", "given", "omit", "omit", "omit", "none", "none"])
+
+    gh = (case.get("ghosts") or {"records": []})["records"]
+    return {"via": r.choice(["add_edge", "add_edge", "add_edges", "add_edges", "ctor", "ctor"]),
+            "rec_how": [how(rec[3]) for rec in case["records"]],
+            "ghost_how": [how(g[4]) for g in gh],
+            "node_how": [how(md) for _, md in case["node_md"]],
+            "nodes_via": r.choice(["add_node", "add_node", "add_nodes", "ctor"]),
+            "nodes_late": r.random() < 0.3,
+            "all_bare": r.choice(["list", "none", "omit"]),
+            "positional": r.random() < 0.3,
+            "set_empty": r.random() < 0.1}
+
+
+def canon_key(ty, key):
+    """a hyperedge key as the container lists it, up to the order of the nodes"""
+    if ty == "H":
+        return frozenset(lab(x) for x in key)
+    if ty == "T":
+        return (key[0], frozenset(lab(x) for x in key[1]))
+    if ty == "M":
+        return (frozenset(lab(x) for x in key[0]), key[1])
+    return (frozenset(lab(x) for x in key[0]), frozenset(lab(x) for x in key[1]))
+
+
+def case_key(ty, nodes, ex):
+    if ty == "D":
+        return canon_key(ty, nodes)
+    return canon_key(ty, {"H": nodes, "T": (ex, nodes), "M": (nodes, ex)}[ty])
+
+
+def given_metadata(case):
+    """what the CASE says the metadata of its items are ({} for an item that never got any): only consulted where the
+    container's own per-item getter raises on an item its full listing shows"""
+    ty = case["type"]
+    nodes = {lab(x): deep(md) for x, md in case["node_md"]}
+    edges = {}
+    for rec in case["records"]:
+        edges[case_key(ty, rec[0], rec[1])] = deep(rec[3])
+    return nodes, edges
 
 
 def build(case, F):
@@ -495,28 +563,124 @@ def build(case, F):
             return shared[k]
         return F.md(md)
 
-    for x, md in case["node_md"]:
-        h.add_node(F.label(x), metadata=mdobj(md))
+    P = case.get("present") or {}
+    via, nodes_via = P.get("via", "add_edge"), P.get("nodes_via", "add_node")
+    gh = case.get("ghosts") or {"records": []}
+    rec_how = P.get("rec_how") or ["given"] * len(case["records"])
+    ghost_how = P.get("ghost_how") or ["given"] * len(gh["records"])
+    node_how = P.get("node_how") or ["given"] * len(case["node_md"])
+    positional = bool(P.get("positional"))
 
-    def add(nodes, ex, w, md):
+    def add_nodes_now(ctor_took):
+        todo = [(x, md, hw) for (x, md), hw in zip(case["node_md"], node_how) if lab(x) not in ctor_took]
+        if nodes_via == "add_nodes":
+            with_md = [(x, md) for x, md, hw in todo if hw == "given"] if ty != "D" else []
+            if with_md:
+                h.add_nodes([F.label(x) for x, _ in with_md], {F.label(x): mdobj(md) for x, md in with_md})
+            todo = [t for t in todo if t[2] != "given" or ty == "D"]
+            bare = [x for x, md, hw in todo if hw != "given"]
+            if bare:
+                h.add_nodes([F.label(x) for x in bare])
+            todo = [t for t in todo if t[2] == "given"]
+        for x, md, hw in todo:
+            if hw == "omit":
+                h.add_node(F.label(x))
+            elif positional:
+                h.add_node(F.label(x), mdobj(md) if hw == "given" else None)
+            else:
+                h.add_node(F.label(x), metadata=mdobj(md) if hw == "given" else None)
+
+    def key_obj(nodes):
+        return (F.label(nodes[0]), F.label(nodes[1])) if ty == "D" else F.label(nodes)
+
+    def add(nodes, ex, w, md, hw="given"):
         if isinstance(w, int) and not isinstance(w, bool):
             w = int(str(w))
-        if ty == "D":
-            h.add_edge((F.label(nodes[0]), F.label(nodes[1])), weight=w, metadata=mdobj(md))
-        elif ty == "H":
-            h.add_edge(F.label(nodes), weight=w, metadata=mdobj(md))
+        args = [key_obj(nodes)] + ([] if ty in "HD" else [F.value(ex)])
+        kw = {} if hw == "omit" else {"metadata": mdobj(md) if hw == "given" else None}
+        if positional and ty in "HD" and hw != "omit":
+            h.add_edge(*args, w, kw["metadata"])
         else:
-            h.add_edge(F.label(nodes), F.value(ex), weight=w, metadata=mdobj(md))
+            h.add_edge(*args, weight=w, **kw)
 
-    gh = case.get("ghosts") or {"records": []}
+    ops = []
     for i, (nodes, ex, w, md) in enumerate(case["records"]):
-        for pos, *g in gh["records"]:
+        for j, (pos, *g) in enumerate(gh["records"]):
             if pos == i:
-                add(*g)
-        add(nodes, ex, w, md)
-    for pos, *g in gh["records"]:
+                ops.append(tuple(g) + (ghost_how[j],))
+        ops.append((nodes, ex, w, md, rec_how[i]))
+    for j, (pos, *g) in enumerate(gh["records"]):
         if pos >= len(case["records"]):
-            add(*g)
+            ops.append(tuple(g) + (ghost_how[j],))
+    batch, singles, seen = [], [], set()
+    if via != "add_edge":
+        # one batch: records with pairwise different node sets (a weighted batch must not repeat a hyperedge); the
+        # others follow one by one
+        for op in ops:
+            k = canon_key("D", op[0]) if ty == "D" else frozenset(lab(x) for x in op[0])
+            if k in seen:
+                singles.append(op)
+            else:
+                seen.add(k)
+                batch.append(op)
+    else:
+        singles = ops
+    ctor_took = set()
+    bkw = {}
+    if batch:
+        ws = []
+        for op in batch:
+            w = op[2]
+            ws.append(int(str(w)) if isinstance(w, int) and not isinstance(w, bool) else w)
+        bkw["weights"] = ws if weighted else None
+        mds = [mdobj(op[3]) if op[4] == "given" else None for op in batch]
+        if any(op[4] == "given" for op in batch) or P.get("all_bare", "list") == "list":
+            bkw["edge_metadata" if via == "ctor" else "metadata"] = mds
+        elif P.get("all_bare") == "none":
+            bkw["edge_metadata" if via == "ctor" else "metadata"] = None
+        edge_list = [key_obj(op[0]) for op in batch]
+        extras = [F.value(op[1]) for op in batch]
+    if via == "ctor":
+        if nodes_via == "ctor" and not P.get("nodes_late"):
+            nm = {}
+            for (x, md), hw in zip(case["node_md"], node_how):
+                if hw != "omit":
+                    nm[F.label(x)] = mdobj(md) if hw == "given" else None
+                    ctor_took.add(lab(x))
+            bkw["node_metadata"] = nm
+        if batch:
+            bkw["edge_list"] = edge_list
+            if ty == "T":
+                bkw["time_list"] = extras
+            elif ty == "M":
+                bkw["edge_layer"] = extras
+        elif "weights" in bkw:
+            del bkw["weights"]
+        h = cls(weighted=weighted, **bkw)
+        if not P.get("nodes_late"):
+            add_nodes_now(ctor_took)
+    else:
+        if not P.get("nodes_late"):
+            add_nodes_now(ctor_took)
+        if batch:
+            if ty in "HD":
+                h.add_edges(edge_list, **bkw)
+            else:
+                h.add_edges(edge_list, extras, **bkw)
+    for op in singles:
+        add(*op)
+    if P.get("nodes_late"):
+        add_nodes_now(ctor_took)
+    if P.get("set_empty") and ty != "M":          # (Multiplex has no set_edge_metadata)
+        # {} handed over once more, explicitly, for the items that have none
+        for (nodes, ex, w, md), hw in zip(case["records"], rec_how):
+            if not md and hw != "given":
+                k = key_obj(nodes)
+                if ty in "HD":
+                    h.set_edge_metadata(k, {})
+                else:
+                    h.set_edge_metadata(k, F.value(ex), {})
+                break
     for x in case["labels"]:
         if rng_free_isolated(case, x):
             h.add_node(F.label(x))
@@ -556,17 +720,46 @@ def key_nodes(ty, key):
     return tuple(key[0]) + tuple(key[1])
 
 
-def content_of(h, ty):
-    """(nodes {label: md}, edges {key: (weight, md)}) through the public API"""
-    nodes = dict(h.get_nodes(metadata=True))
+def content_of(h, ty, given=None, ctx=None):
+    """(nodes {label: md}, edges {key: (weight, md)}) through the public API: the FULL listings get_nodes() /
+    get_edges() and the per-item getters (not the metadata=True listings the filter itself walks through). Where a
+    getter raises on a listed item, the metadata the case gave that item ({} if it never gave any) stand in (counted)."""
+    gn, ge = given or ({}, {})
+    nodes = {}
+    listing = None if hasattr(h, "get_node_metadata") else h.get_nodes(metadata=True)     # (Multiplex has no getter)
+    for x in list(h.get_nodes()):
+        try:
+            md = h.get_node_metadata(x) if listing is None else listing[x]
+        except Exception:  # noqa: BLE001
+            if given is None or ty is None:
+                raise
+            md = deep(gn.get(lab(x), {}))
+            if ctx:
+                ctx.count("filter_getter_raised_on_listed_item")
+        if x in nodes:
+            raise ValueError(f"get_nodes lists {x!r} twice")
+        nodes[x] = md
     edges = {}
     for key in list(h.get_edges()):
+        try:
+            if ty == "H" or ty == "D":
+                md = h.get_edge_metadata(key)
+            elif ty == "T":
+                md = h.get_edge_metadata(key[1], key[0])
+            else:
+                md = h.get_edge_metadata(key[0], key[1])
+        except Exception:  # noqa: BLE001
+            if given is None or canon_key(ty, key) not in ge:
+                raise
+            md = deep(ge[canon_key(ty, key)])
+            if ctx:
+                ctx.count("filter_getter_raised_on_listed_item")
         if ty == "H" or ty == "D":
-            w, md = h.get_weight(key), h.get_edge_metadata(key)
+            w = h.get_weight(key)
         elif ty == "T":
-            w, md = h.get_weight(key[1], key[0]), h.get_edge_metadata(key[1], key[0])
+            w = h.get_weight(key[1], key[0])
         else:
-            w, md = h.get_weight(key[0], key[1]), h.get_edge_metadata(key[0], key[1])
+            w = h.get_weight(key[0], key[1])
         if key in edges:
             raise ValueError(f"get_edges lists {key!r} twice")
         edges[key] = (w, md)
@@ -708,10 +901,18 @@ def check_filter(ctx, drv, case):
         # construction through add_node/add_edge/remove_* is C01-C04's business; not a C19 observation
         ctx.count("filter_build_failed")
         return
-    pre, err = guarded(lambda: content_of(h, ty))
+    given = given_metadata(case)
+    pre, err = guarded(lambda: content_of(h, ty, given, ctx))
     if err:
         ctx.count("filter_build_failed")
         return
+    P = case.get("present") or {}
+    ctx.count("filter_edges_via_" + P.get("via", "add_edge"))
+    ctx.count("filter_nodes_via_" + P.get("nodes_via", "add_node"))
+    for name in ("rec_how", "ghost_how", "node_how"):
+        for hw in P.get(name) or []:
+            if hw != "given":
+                ctx.count(f"filter_{name[:-4]}_metadata_{hw}")
     nodes0, edges0 = snapshot(pre)
     weighted = bool(h.is_weighted())
     rank = {x: i for i, x in enumerate(sorted(lab(x) for x in case["labels"]))}
@@ -721,7 +922,7 @@ def check_filter(ctx, drv, case):
     for idx, step in enumerate(steps):
         if idx:
             ctx.count("filter_second_call_on_same_object")
-        res = filter_step(ctx, drv, case, h, ty, weighted, rank, step, steps[idx + 1:], nodes0, edges0, idx, F)
+        res = filter_step(ctx, drv, case, h, ty, weighted, rank, step, steps[idx + 1:], nodes0, edges0, idx, F, given)
         if res is None:
             return
         nodes0, edges0 = res
@@ -741,7 +942,7 @@ def spoil(crit):
     crit["type"] = ["nobody"]
 
 
-def filter_step(ctx, drv, case, h, ty, weighted, rank, step, later, nodes0, edges0, idx, F):
+def filter_step(ctx, drv, case, h, ty, weighted, rank, step, later, nodes0, edges0, idx, F, given=None):
     """one `filter_hypergraph` call on `h` whose content before the call is (nodes0, edges0);
     returns the content after it (None when something was reported)"""
     from hypergraphx.filters import filter_hypergraph
@@ -797,7 +998,7 @@ def filter_step(ctx, drv, case, h, ty, weighted, rank, step, later, nodes0, edge
             return None
     spoil(ncrit_obj)
     spoil(ecrit_obj)
-    post, err = guarded(lambda: content_of(h, ty))
+    post, err = guarded(lambda: content_of(h, ty, given, ctx))
     if err:
         ctx.violation(case, f"{tag}the container cannot be listed after filter_hypergraph: {err}")
         return None
